@@ -290,61 +290,61 @@ fn repl() -> Vec<AnyValueWrapper<String>> { Vec::new() }
 
 # (method key (fn path in the fact base), kind, handle expression on `v`, extra setup)
 ERASED_ROWS = [
-    ("any_vec::AnyVec::<Traits, M>::iter", "shared", "v.iter()"),
-    ("any_vec::AnyVec::<Traits, M>::at", "shared", "v.at(0)"),
-    ("any_vec::AnyVec::<Traits, M>::get", "shared", "v.get(0)"),
-    ("any_vec::AnyVec::<Traits, M>::as_bytes", "shared", "v.as_bytes()"),
-    ("any_vec::AnyVec::<Traits, M>::downcast_ref", "shared", "v.downcast_ref::<String>()"),
-    ("any_vec::AnyVec::<Traits, M>::get_unchecked", "shared", "unsafe { v.get_unchecked(0) }"),
-    ("any_vec::AnyVec::<Traits, M>::downcast_ref_unchecked", "shared", "unsafe { v.downcast_ref_unchecked::<String>() }"),
-    ("<&'a any_vec::AnyVec<Traits, M> as core::iter::IntoIterator>::into_iter", "shared", "(&v).into_iter()"),
-    ("any_vec::AnyVec::<Traits, M>::iter_mut", "excl", "v.iter_mut()"),
-    ("any_vec::AnyVec::<Traits, M>::at_mut", "excl", "v.at_mut(0)"),
-    ("any_vec::AnyVec::<Traits, M>::get_mut", "excl", "v.get_mut(0)"),
-    ("any_vec::AnyVec::<Traits, M>::as_bytes_mut", "excl", "v.as_bytes_mut()"),
-    ("any_vec::AnyVec::<Traits, M>::spare_bytes_mut", "excl", "v.spare_bytes_mut()"),
-    ("any_vec::AnyVec::<Traits, M>::downcast_mut", "excl", "v.downcast_mut::<String>()"),
-    ("any_vec::AnyVec::<Traits, M>::get_unchecked_mut", "excl", "unsafe { v.get_unchecked_mut(0) }"),
-    ("any_vec::AnyVec::<Traits, M>::downcast_mut_unchecked", "excl", "unsafe { v.downcast_mut_unchecked::<String>() }"),
-    ("<&'a mut any_vec::AnyVec<Traits, M> as core::iter::IntoIterator>::into_iter", "excl", "(&mut v).into_iter()"),
-    ("any_vec::AnyVec::<Traits, M>::pop", "excl", "v.pop()"),
-    ("any_vec::AnyVec::<Traits, M>::remove", "excl", "v.remove(0)"),
-    ("any_vec::AnyVec::<Traits, M>::swap_remove", "excl", "v.swap_remove(0)"),
-    ("any_vec::AnyVec::<Traits, M>::drain", "excl", "v.drain(..)"),
-    ("any_vec::AnyVec::<Traits, M>::splice", "excl", "v.splice(.., repl())"),
+    ("any_vec::AnyVec::iter", "shared", "v.iter()"),
+    ("any_vec::AnyVec::at", "shared", "v.at(0)"),
+    ("any_vec::AnyVec::get", "shared", "v.get(0)"),
+    ("any_vec::AnyVec::as_bytes", "shared", "v.as_bytes()"),
+    ("any_vec::AnyVec::downcast_ref", "shared", "v.downcast_ref::<String>()"),
+    ("any_vec::AnyVec::get_unchecked", "shared", "unsafe { v.get_unchecked(0) }"),
+    ("any_vec::AnyVec::downcast_ref_unchecked", "shared", "unsafe { v.downcast_ref_unchecked::<String>() }"),
+    ("<&any_vec::AnyVec as core::iter::IntoIterator>::into_iter", "shared", "(&v).into_iter()"),
+    ("any_vec::AnyVec::iter_mut", "excl", "v.iter_mut()"),
+    ("any_vec::AnyVec::at_mut", "excl", "v.at_mut(0)"),
+    ("any_vec::AnyVec::get_mut", "excl", "v.get_mut(0)"),
+    ("any_vec::AnyVec::as_bytes_mut", "excl", "v.as_bytes_mut()"),
+    ("any_vec::AnyVec::spare_bytes_mut", "excl", "v.spare_bytes_mut()"),
+    ("any_vec::AnyVec::downcast_mut", "excl", "v.downcast_mut::<String>()"),
+    ("any_vec::AnyVec::get_unchecked_mut", "excl", "unsafe { v.get_unchecked_mut(0) }"),
+    ("any_vec::AnyVec::downcast_mut_unchecked", "excl", "unsafe { v.downcast_mut_unchecked::<String>() }"),
+    ("<&mut any_vec::AnyVec as core::iter::IntoIterator>::into_iter", "excl", "(&mut v).into_iter()"),
+    ("any_vec::AnyVec::pop", "excl", "v.pop()"),
+    ("any_vec::AnyVec::remove", "excl", "v.remove(0)"),
+    ("any_vec::AnyVec::swap_remove", "excl", "v.swap_remove(0)"),
+    ("any_vec::AnyVec::drain", "excl", "v.drain(..)"),
+    ("any_vec::AnyVec::splice", "excl", "v.splice(.., repl())"),
 ]
 # typed view rows: handle expression on `t` (a typed view) ; view kind needed
 TYPED_ROWS = [
-    ("any_vec_typed::AnyVecTyped::<'a, T, M>::iter", "shared", "t.iter()"),
-    ("any_vec_typed::AnyVecTyped::<'a, T, M>::at", "shared", "t.at(0)"),
-    ("any_vec_typed::AnyVecTyped::<'a, T, M>::get", "shared", "t.get(0)"),
-    ("any_vec_typed::AnyVecTyped::<'a, T, M>::as_slice", "shared", "t.as_slice()"),
-    ("any_vec_typed::AnyVecTyped::<'a, T, M>::get_unchecked", "shared", "unsafe { t.get_unchecked(0) }"),
-    ("any_vec_typed::AnyVecTyped::<'a, T, M>::iter_mut", "excl", "t.iter_mut()"),
-    ("any_vec_typed::AnyVecTyped::<'a, T, M>::at_mut", "excl", "t.at_mut(0)"),
-    ("any_vec_typed::AnyVecTyped::<'a, T, M>::get_mut", "excl", "t.get_mut(0)"),
-    ("any_vec_typed::AnyVecTyped::<'a, T, M>::as_mut_slice", "excl", "t.as_mut_slice()"),
-    ("any_vec_typed::AnyVecTyped::<'a, T, M>::spare_capacity_mut", "excl", "t.spare_capacity_mut()"),
-    ("any_vec_typed::AnyVecTyped::<'a, T, M>::get_unchecked_mut", "excl", "unsafe { t.get_unchecked_mut(0) }"),
-    ("any_vec_typed::AnyVecTyped::<'a, T, M>::drain", "excl", "t.drain(..)"),
-    ("any_vec_typed::AnyVecTyped::<'a, T, M>::splice", "excl", "t.splice(.., Vec::<String>::new())"),
-    ("<any_vec::AnyVecRef<'a, T, M> as core::iter::IntoIterator>::into_iter", "shared-view-consume", "t.into_iter()"),
-    ("<any_vec::AnyVecMut<'a, T, M> as core::iter::IntoIterator>::into_iter", "excl-view-consume", "t.into_iter()"),
+    ("any_vec_typed::AnyVecTyped::iter", "shared", "t.iter()"),
+    ("any_vec_typed::AnyVecTyped::at", "shared", "t.at(0)"),
+    ("any_vec_typed::AnyVecTyped::get", "shared", "t.get(0)"),
+    ("any_vec_typed::AnyVecTyped::as_slice", "shared", "t.as_slice()"),
+    ("any_vec_typed::AnyVecTyped::get_unchecked", "shared", "unsafe { t.get_unchecked(0) }"),
+    ("any_vec_typed::AnyVecTyped::iter_mut", "excl", "t.iter_mut()"),
+    ("any_vec_typed::AnyVecTyped::at_mut", "excl", "t.at_mut(0)"),
+    ("any_vec_typed::AnyVecTyped::get_mut", "excl", "t.get_mut(0)"),
+    ("any_vec_typed::AnyVecTyped::as_mut_slice", "excl", "t.as_mut_slice()"),
+    ("any_vec_typed::AnyVecTyped::spare_capacity_mut", "excl", "t.spare_capacity_mut()"),
+    ("any_vec_typed::AnyVecTyped::get_unchecked_mut", "excl", "unsafe { t.get_unchecked_mut(0) }"),
+    ("any_vec_typed::AnyVecTyped::drain", "excl", "t.drain(..)"),
+    ("any_vec_typed::AnyVecTyped::splice", "excl", "t.splice(.., Vec::<String>::new())"),
+    ("<any_vec::AnyVecRef as core::iter::IntoIterator>::into_iter", "shared-view-consume", "t.into_iter()"),
+    ("<any_vec::AnyVecMut as core::iter::IntoIterator>::into_iter", "excl-view-consume", "t.into_iter()"),
 ]
 # rows whose receivers are element handles / values
 ELEMENT_ROWS = [
-    ("element::ElementPointer::<'a, AnyVecPtr>::downcast_ref", "e.downcast_ref::<String>()"),
-    ("element::ElementPointer::<'a, AnyVecPtr>::downcast_mut", "e.downcast_mut::<String>()"),
-    ("element::ElementPointer::<'a, AnyVecPtr>::downcast_ref_unchecked", None),
-    ("element::ElementPointer::<'a, AnyVecPtr>::downcast_mut_unchecked", None),
+    ("element::ElementPointer::downcast_ref", "e.downcast_ref::<String>()"),
+    ("element::ElementPointer::downcast_mut", "e.downcast_mut::<String>()"),
+    ("element::ElementPointer::downcast_ref_unchecked", None),
+    ("element::ElementPointer::downcast_mut_unchecked", None),
     ("any_value::AnyValue::downcast_ref", None), ("any_value::AnyValueMut::downcast_mut", None),
     ("any_value::AnyValueTypeless::as_bytes", None), ("any_value::AnyValueTypelessMut::as_bytes_mut", None),
     ("any_value::AnyValueSizeless::downcast_ref_unchecked", None), ("any_value::AnyValueSizelessMut::downcast_mut_unchecked", None),
-    ("any_value::AnyValueCloneable::lazy_clone", None), ("any_value::lazy_clone::LazyClone::<'a, T>::new", None),
-    ("<any_vec::AnyVecRef<'a, T, M> as core::ops::Deref>::deref", None), ("<any_vec::AnyVecMut<'a, T, M> as core::ops::Deref>::deref", None),
-    ("<any_vec::AnyVecMut<'a, T, M> as core::ops::DerefMut>::deref_mut", None),
-    ("<element::ElementRef<'a, Traits, M> as core::ops::Deref>::deref", None), ("<element::ElementMut<'a, Traits, M> as core::ops::Deref>::deref", None),
-    ("<element::ElementMut<'a, Traits, M> as core::ops::DerefMut>::deref_mut", None),
+    ("any_value::AnyValueCloneable::lazy_clone", None), ("any_value::lazy_clone::LazyClone::new", None),
+    ("<any_vec::AnyVecRef as core::ops::Deref>::deref", None), ("<any_vec::AnyVecMut as core::ops::Deref>::deref", None),
+    ("<any_vec::AnyVecMut as core::ops::DerefMut>::deref_mut", None),
+    ("<element::ElementRef as core::ops::Deref>::deref", None), ("<element::ElementMut as core::ops::Deref>::deref", None),
+    ("<element::ElementMut as core::ops::DerefMut>::deref_mut", None),
 ]
 
 
@@ -377,8 +377,8 @@ def build_p16(ctx):
              "    let h;\n    {\n        let mut v = mk();\n        h = %s;\n    }\n    keep(&h);" % h,
              "    {\n        let mut v = mk();\n        let h;\n        h = %s;\n        keep(&h);\n    }" % h)
     # 6 consume a removal handle twice
-    for (m, h) in (("any_vec::AnyVec::<Traits, M>::pop", "v.pop().unwrap()"), ("any_vec::AnyVec::<Traits, M>::remove", "v.remove(0)"),
-                   ("any_vec::AnyVec::<Traits, M>::swap_remove", "v.swap_remove(0)"), ("any_vec::AnyVec::<Traits, M>::drain", "v.drain(..).next().unwrap()")):
+    for (m, h) in (("any_vec::AnyVec::pop", "v.pop().unwrap()"), ("any_vec::AnyVec::remove", "v.remove(0)"),
+                   ("any_vec::AnyVec::swap_remove", "v.swap_remove(0)"), ("any_vec::AnyVec::drain", "v.drain(..).next().unwrap()")):
         pair("P16:%s:6-consume-twice" % m, "consuming a removed value twice",
              "    let mut v = mk();\n    let mut w = mk();\n    let h = %s;\n    w.push(h);\n    w.push(h);" % h,
              "    let mut v = mk();\n    let mut w = mk();\n    let h = %s;\n    w.push(h);" % h)
@@ -407,16 +407,16 @@ def build_p16(ctx):
                  "    let mut v = mk();\n    let mut t = v.downcast_mut::<String>().unwrap();\n    let a = %s;\n    let b = %s;\n    keep(&a);\n    drop(a);\n    keep(&b);\n    drop(b);" % (h, h),
                  "    let mut v = mk();\n    let mut t = v.downcast_mut::<String>().unwrap();\n    let a = %s;\n    keep(&a);\n    drop(a);\n    let b = %s;\n    keep(&b);\n    drop(b);" % (h, h))
     # element handles
-    pair("P16:element::ElementPointer::<'a, AnyVecPtr>::downcast_mut:8-two-mutable-paths", "two &mut T from one ElementMut",
+    pair("P16:element::ElementPointer::downcast_mut:8-two-mutable-paths", "two &mut T from one ElementMut",
          "    let mut v = mk();\n    let mut e = v.at_mut(0);\n    let a = e.downcast_mut::<String>().unwrap();\n    let b = e.downcast_mut::<String>().unwrap();\n    keep(&a);\n    keep(&b);",
          "    let mut v = mk();\n    let mut e = v.at_mut(0);\n    let a = e.downcast_mut::<String>().unwrap();\n    keep(&a);\n    let b = e.downcast_mut::<String>().unwrap();\n    keep(&b);")
-    pair("P16:element::ElementPointer::<'a, AnyVecPtr>::downcast_ref:7-mutate-through-view", "&T from an ElementMut kept across a &mut T to the same element",
+    pair("P16:element::ElementPointer::downcast_ref:7-mutate-through-view", "&T from an ElementMut kept across a &mut T to the same element",
          "    let mut v = mk();\n    let mut e = v.at_mut(0);\n    let r = e.downcast_ref::<String>().unwrap();\n    let m = e.downcast_mut::<String>().unwrap();\n    m.push('x');\n    keep(&r);",
          "    let mut v = mk();\n    let mut e = v.at_mut(0);\n    let r = e.downcast_ref::<String>().unwrap();\n    keep(&r);\n    let m = e.downcast_mut::<String>().unwrap();\n    m.push('x');")
-    pair("P16:element::ElementPointer::<'a, AnyVecPtr>::downcast_ref:1-mutate-source", "&T from an element kept across a mutation of the vector",
+    pair("P16:element::ElementPointer::downcast_ref:1-mutate-source", "&T from an element kept across a mutation of the vector",
          "    let mut v = mk();\n    let r = v.at(0).downcast_ref::<String>().unwrap();\n    v.clear();\n    keep(&r);",
          "    let mut v = mk();\n    let r = v.at(0).downcast_ref::<String>().unwrap();\n    keep(&r);\n    v.clear();")
-    pair("P16:element::ElementPointer::<'a, AnyVecPtr>::downcast_mut:1-mutate-source", "&mut T from an element kept across a mutation of the vector",
+    pair("P16:element::ElementPointer::downcast_mut:1-mutate-source", "&mut T from an element kept across a mutation of the vector",
          "    let mut v = mk();\n    let r = v.at_mut(0).downcast_mut::<String>().unwrap();\n    v.clear();\n    keep(&r);",
          "    let mut v = mk();\n    let r = v.at_mut(0).downcast_mut::<String>().unwrap();\n    keep(&r);\n    v.clear();")
     pair("P16:any_value::AnyValueMut::downcast_mut:8-two-mutable-paths", "two &mut T from one removal handle",
@@ -475,7 +475,7 @@ def p16_row_coverage(ctx, res):
             continue      # impls of exported local traits: the trait method row covers them
         n += 1
         res.inst(sample={"borrowing_method": f["path"]})
-        if f["path"] in covered:
+        if ctx.p2c.get(f["path"], f["path"]) in covered:
             res.ok()
         else:
             res.fail(f["path"], "uncovered-row", "public method %s returns something carrying a lifetime but has no borrow-probe row" % f["path"], kind="coverage-lost")
